@@ -99,8 +99,10 @@ type rtr struct {
 	hosts      []string
 	sig        string
 	optsig     []string
-	paramNames []string // every parameter name of every route ever registered on this router
-	family     bool     // hostname route families with competing static / parameter labels
+	paramNames []string    // every parameter name of every route ever registered on this router
+	pairs      [][2]string // near-miss pairs registered (static-label route, parameter-label route)
+	curPair    int         // pair the request being generated aims at, -1 = none
+	family     bool        // hostname route families with competing static / parameter labels
 }
 
 func record(r *rtr, c fox.Context, kind, m, p string) {
@@ -240,8 +242,19 @@ var hostFamily = []string{
 	"{a}.b.com/x", "{a}.{c}.com/y", "{a}.b.com/{p}/x", "www.b.com/x", "www.{c}.com/y", "{a}.b.com/x/", "{a}.{c}.com/x/y",
 	"{a}.{c}.com/{p}", "www.b.com/y/", "{a}.b.{d}/z", "{a}.b.com/z", "{a}.{c}.{d}/w", "foo.{c}.com/v", "{a}.z.com/v",
 }
-var familyHosts = []string{"foo.b.com", "foo.z.com", "www.b.com", "www.z.com", "foo.b.org", "bar.b.com", "foo.z.org", "b.com"}
-var familyPaths = []string{"/x", "/y", "/x/", "/y/", "/z", "/w", "/v", "/x/y", "/q", "/q/x", "/"}
+var familyHosts = []string{"foo.b.com", "foo.z.com", "www.b.com", "www.z.com", "foo.b.org", "bar.b.com", "foo.z.org", "b.com",
+	"www.b.com", "foo.b.com", "api.example.com", "web.example.com"}
+var familyPaths = []string{"/x", "/y", "/x/", "/y/", "/z", "/w", "/v", "/v/", "/x/y", "/q", "/q/x", "/", "/foo", "/foo/", "/x", "/y"}
+
+// {static-label route, parameter-label route}: for the host named by the static label one of them matches
+// the path directly and the other only after adding / removing the trailing slash
+var nearMissPairs = [][2]string{
+	{"www.b.com/x/", "{a}.b.com/x"}, {"www.b.com/x", "{a}.b.com/x/"},
+	{"www.b.com/y/", "{a}.{c}.com/y"}, {"www.b.com/y", "{a}.{c}.com/y/"},
+	{"foo.b.com/v/", "foo.{c}.com/v"}, {"foo.b.com/v", "{a}.b.com/v/"},
+	{"api.example.com/foo/", "{sub}.example.com/foo"}, {"api.example.com/foo", "{sub}.example.com/foo/"},
+	{"api.example.com/foo/", "{sub}.{dom}.com/foo"}, {"www.b.com/{p}/", "{a}.b.com/x"},
+}
 
 var hostPatterns = []string{"ex.com/", "ex.com/a/", "ex.com/{x}", "ex.com/{x}/", "{sub}.ex.com/a", "{sub}.ex.com/a/", "ex.com/a/b"}
 
@@ -459,6 +472,28 @@ func newRouter(rnd *hx.Rand, st *hx.Stats) *rtr {
 				st.Count("register:rejected")
 			}
 		}
+		// a trailing-slash near miss under the static label next to a direct match under the parameter label
+		// (and the reverse), both under this method, in any trailing-slash mode
+		if r.family && rnd.Pct(55) {
+			pair := hx.Pick(rnd, nearMissPairs)
+			for _, p := range pair {
+				var rops []tsOpt
+				switch rnd.Intn(6) {
+				case 0:
+					rops = []tsOpt{{false, true}}
+				case 1:
+					rops = []tsOpt{{true, true}}
+				case 2:
+					rops = hx.Pick(rnd, allTsLists())
+				}
+				if err := r.handle(st, m, p, rops); err != nil {
+					st.Count("register:rejected")
+				} else {
+					st.Count("router:near-miss-pair-route")
+				}
+			}
+			r.pairs = append(r.pairs, pair)
+		}
 	}
 	// sometimes delete every route of one method: the root stays, without children
 	if rnd.Pct(12) && len(r.routes) > 0 {
@@ -519,6 +554,9 @@ func genWire(rnd *hx.Rand, r *rtr, method string) string {
 		}
 	}
 	switch {
+	case r.curPair >= 0 && r.curPair < len(r.pairs) && rnd.Pct(85):
+		pt := r.pairs[r.curPair][rnd.Intn(2)]
+		return paramNameRe.ReplaceAllString(pt[strings.IndexByte(pt, '/'):], "v")
 	case r.family && rnd.Pct(60):
 		return hx.Pick(rnd, familyPaths)
 	case len(same) > 0 && rnd.Pct(45):
@@ -596,9 +634,17 @@ func genRequest(rnd *hx.Rand, r *rtr, st *hx.Stats) *reqCase {
 	if r.family && rnd.Pct(75) {
 		host = hx.Pick(rnd, familyHosts)
 	}
+	r.curPair = -1
+	if len(r.pairs) > 0 && rnd.Pct(45) {
+		// aim at a near-miss pair: the host named by the static label, the path of either route
+		r.curPair = rnd.Intn(len(r.pairs))
+		st0 := r.pairs[r.curPair][0]
+		host = paramNameRe.ReplaceAllString(st0[:strings.IndexByte(st0, '/')], "foo")
+	}
 	// decorations of the Host: port, trailing dot, and the doubly-decorated forms of which only one
 	// layer may be removed (so they do NOT name the registered hostname)
 	switch k := rnd.Intn(100); {
+	case r.curPair >= 0 && k < 80:
 	case k < 8:
 		host += ":8080"
 	case k < 14:
@@ -977,6 +1023,14 @@ func corpus(st *hx.Stats, add func(r *rtr, rc *reqCase, tag string)) {
 		{true, false, "", []rdef{{"POST", "{a}.b.com/x", ""}, {"POST", "{a}.{c}.com/y", ""}, {"GET", "/q", ""}}, "GET", "/y", "foo.b.com"},
 		{true, true, "", []rdef{{"POST", "www.b.com/x", ""}, {"POST", "{a}.b.com/y", ""}, {"PUT", "{a}.b.com/x", ""}, {"PUT", "{a}.{c}.com/z", ""}}, "GET", "/z", "www.b.com"},
 		{true, false, "", []rdef{{"POST", "{a}.b.com/x", ""}, {"POST", "{a}.{c}.com/y", ""}}, "GET", "/q", "foo.b.com"},
+		// direct match under the parameter label next to a trailing-slash near miss under the static label
+		{true, true, "", []rdef{{"GET", "api.example.com/foo/", ""}, {"GET", "{sub}.example.com/foo", ""}}, "POST", "/foo", "api.example.com"},
+		{true, true, "", []rdef{{"GET", "api.example.com/foo/", ""}, {"GET", "{sub}.example.com/foo", ""}}, "OPTIONS", "/foo", "api.example.com"},
+		{true, true, "", []rdef{{"GET", "api.example.com/foo/", ""}, {"GET", "{sub}.example.com/foo", ""}}, "GET", "/foo", "api.example.com"},
+		{true, true, "redirect", []rdef{{"GET", "api.example.com/foo/", ""}, {"GET", "{sub}.example.com/foo", ""}}, "POST", "/foo", "api.example.com"},
+		{true, true, "", []rdef{{"GET", "api.example.com/foo/", "ignore"}, {"GET", "{sub}.example.com/foo", ""}}, "POST", "/foo", "api.example.com"},
+		{true, true, "", []rdef{{"GET", "api.example.com/foo", ""}, {"GET", "{sub}.example.com/foo/", ""}, {"PUT", "www.b.com/x/", ""}, {"PUT", "{a}.b.com/x", ""}}, "DELETE", "/foo/", "api.example.com"},
+		{true, false, "", []rdef{{"PUT", "www.b.com/x/", ""}, {"PUT", "{a}.b.com/x", ""}}, "GET", "/x", "www.b.com"},
 	}
 	named := func(o string) []tsOpt {
 		switch o {
